@@ -16,6 +16,12 @@ Extracted (None = pattern not recognised -> `extraction_failed`):
                           when `conn_id == 0` (called from EXEC) ?
   * dedup_keys            do `handle_blpop` / `handle_brpop` drop repeated keys (`keys.retain(|k| seen.insert(..))`
                           or `keys.dedup…`) before registering ?
+  * drain_all             is that call of `process_wakeups()` in `process_normal_command` under
+                          `while …has_pending_wakeups()` (until the queue is empty) rather than `if` (one batch) ?
+  * notice_blocked_hangup does `process_connections` probe the blocked connections it skips for end-of-file
+                          (`Connection::peer_closed()` called in `process_connections`) ?
+  * defer_batch           does `process_connection` stop executing the frames of a batch once the connection is
+                          Blocked and keep the rest (`deferred_frames`) ?
 """
 import re
 
@@ -35,7 +41,8 @@ def _arm(text, name):
 
 
 def facts(src, strip_comments, fn_body):
-    out = {"wake_batch": None, "notify_per_element": None, "wake_at_push": None, "unregister_all": None, "refuse_in_tx": None, "dedup_keys": None}
+    out = {"wake_batch": None, "notify_per_element": None, "wake_at_push": None, "unregister_all": None, "refuse_in_tx": None, "dedup_keys": None,
+           "drain_all": None, "notice_blocked_hangup": None, "defer_batch": None}
     bl = strip_comments(src("network/blocking.rs"))
     pw = fn_body(bl, "process_wakeups")
     if pw is not None:
@@ -58,6 +65,15 @@ def facts(src, strip_comments, fn_body):
         out["notify_per_element"] = per[0]
         i = pnc.find("notify_key_ready")
         out["wake_at_push"] = bool(re.search(r"self\s*\.\s*process_wakeups\s*\(\s*\)", pnc[i:]))
+    if out["wake_at_push"] is not None:
+        m = re.search(r"\b(if|while)\s+self\s*\.\s*blocking_manager\s*\.\s*has_pending_wakeups\s*\(\s*\)\s*\{[^{}]*?self\s*\.\s*process_wakeups\s*\(\s*\)", pnc, re.S)
+        out["drain_all"] = bool(m and m.group(1) == "while") if (m or not out["wake_at_push"]) else None
+    pcs = fn_body(sv, "process_connections")
+    if pcs is not None and "is_connection_blocked" in pcs:
+        out["notice_blocked_hangup"] = bool(re.search(r"\.\s*peer_closed\s*\(\s*\)", pcs))
+    pc = fn_body(sv, "process_connection")
+    if pc is not None and "frames_to_process" in pc:
+        out["defer_batch"] = bool(re.search(r"deferred_frames", pc) and re.search(r"ConnectionState::Blocked", pc))
     wc = fn_body(sv, "wake_client")
     if wc is not None and "send_frame" in wc and ("lpop" in wc and "rpop" in wc):
         out["unregister_all"] = bool(re.search(r"unregister_client\s*\(", wc))
@@ -95,5 +111,8 @@ def generate(src, strip_comments, fn_body, header):
     item("unregisterAllOnServe", "Bool", f["unregister_all"], "wake_client calls unregister_client after serving", "wake_client not recognised")
     item("refuseBlockingInTx", "Bool", f["refuse_in_tx"], "handle_blpop/handle_brpop answer the null array when conn_id == 0", "handle_blpop/handle_brpop with register_blocked not recognised")
     item("dedupKeys", "Bool", f["dedup_keys"], "handle_blpop/handle_brpop drop repeated keys before registering", "handle_blpop/handle_brpop with register_blocked not recognised")
+    item("drainAll", "Bool", f["drain_all"], "process_normal_command drains the wake queue under `while has_pending_wakeups()`", "wake-up drain at the end of process_normal_command not recognised")
+    item("noticeBlockedHangup", "Bool", f["notice_blocked_hangup"], "process_connections probes blocked connections with Connection::peer_closed()", "process_connections not recognised")
+    item("deferBatchWhenBlocked", "Bool", f["defer_batch"], "process_connection keeps the frames behind a blocking pop that blocked (deferred_frames)", "process_connection not recognised")
     L += ["", "end Ferrous.Gen.Blocking", ""]
     return "\n".join(L)
